@@ -62,6 +62,9 @@ def PlainMembers : List (Bytes × Ty) → Prop
   | (_, t) :: r => Plain t ∧ PlainMembers r
 end
 
+/-- a signature the wire and the parser take: within the string limit, nested no deeper than `MaxDepth` -/
+def SigFits (t : Ty) : Prop := (print t).length ≤ maxStringSize ∧ C09.nest t ≤ maxDepth
+
 mutual
 /-- `Typed t v`: `v` is a value of the (grammar) type `t`.  Counts fit 31 bits, strings the
     string limit; a dynamic value carries a grammar type other than `m` itself. -/
@@ -70,7 +73,7 @@ def Typed : Ty → TVal → Prop
   | .basic c, .str b => c = 115 ∧ b.length ≤ maxStringSize
   | .basic c, .void => c = 118
   | .basic c, .dyn t v =>
-      c = 109 ∧ C09.WF t ∧ Plain t ∧ t ≠ .basic 109 ∧ (print t).length ≤ maxStringSize ∧ Typed t v
+      c = 109 ∧ C09.WF t ∧ Plain t ∧ t ≠ .basic 109 ∧ SigFits t ∧ Typed t v
   | .list t, .list xs =>
       xs.length < 2147483648 ∧ (zeroSize t = true → xs.length ≤ zeroLoopLimit) ∧ TypedList t xs
   | .map k v, .map kvs =>
@@ -212,12 +215,12 @@ theorem rt : (v : TVal) → (t : Ty) → Typed t v → RT t v
     simp [readT, D, width]
   | .dyn t' v, t, ht => by
     cases t <;> simp [Typed] at ht
-    obtain ⟨rfl, hwf, _, _, hlen, htv⟩ := ht
+    obtain ⟨rfl, hwf, _, _, ⟨hlen, hnest⟩, htv⟩ := ht
     intro f rest hf
     obtain ⟨k, rfl⟩ : ∃ k, f = k + 1 := ⟨f - 1, by simp [vneed] at hf; omega⟩
     have hk : vneed v ≤ k := by simp [vneed] at hf; omega
     have hs := readString_write (print t') (D t' v ++ rest) hlen
-    have hp := C09.print_parse t' hwf
+    have hp := C09.print_parse t' hwf hnest
     have ih := rt v t' htv k rest hk
     simp only [D, List.append_assoc] at hs ⊢
     simp [readT, width, hs, hp, ih]
